@@ -173,11 +173,13 @@ def ModuleIR.usedNames (m : ModuleIR) : List String :=
   m.classes.flatMap (fun c => c.bases ++ c.uses ++ c.fwd) ++ m.methods.flatMap (·.uses) ++ m.rebuilds
 
 /-- autoflake `remove_all_unused_imports`: an imported name survives iff the module mentions it
-    (pyflakes also reads quoted annotations, hence `fwd`) -/
+    (pyflakes also reads quoted annotations, hence `fwd`) - or REDEFINES it by a class / function statement
+    (pyflakes reports that as a redefinition, not as an unused import, and autoflake leaves it alone) -/
 def ModuleIR.effectiveImports (m : ModuleIR) : List Import :=
   let is := m.imports.map normImport
+  let keep := m.usedNames ++ m.classes.map (·.name) ++ m.funcs
   if m.prune then
-    (is.map fun i => { i with names := i.names.filter m.usedNames.contains }).filter (!·.names.isEmpty)
+    (is.map fun i => { i with names := i.names.filter keep.contains }).filter (!·.names.isEmpty)
   else is
 
 /-- the names a module binds at top level -/
